@@ -305,6 +305,33 @@ class SDict:
         return SDict(arity, vkind, dom, val, None, True, label)
 
 
+class NestedSDict:
+    """mutable two-level dict  {k1: {k2: record}}  built inside a loop over a symbolic-length collection (keys are
+    ints / names, records are dicts with a fixed set of concrete field names).  dom1: Int->Bool, dom2: Int->(Int->Bool),
+    cols[field] = (Int->(Int->sort), kind).  Inner dicts are views (NestedInner) that alias this object."""
+
+    def __init__(self, dom1, dom2, cols, fresh=True, label="nested"):
+        self.dom1 = dom1
+        self.dom2 = dom2
+        self.cols = dict(cols)
+        self.fresh = fresh
+        self.label = label
+
+    def __repr__(self):
+        return f"NestedSDict<{self.label}>"
+
+
+class NestedInner:
+    """the inner dict  parent[k1]  (a view: stores go to the parent)"""
+
+    def __init__(self, parent, k1):
+        self.parent = parent
+        self.k1 = k1
+
+    def __repr__(self):
+        return f"NestedInner<{self.parent.label}[{self.k1}]>"
+
+
 # ------------------------------------------------------------------ numpy
 
 _cid = itertools.count(1)
